@@ -58,7 +58,12 @@ def _set_phase_term(fns, consts, p_term):
     st.fields = {1: (BV32, MASK24), 2: (BV32, "acc0"), 3: (BV32, "last0"), 5: ("Bool", "flag0")}
     st.locals = {"_2": (F32, p_term)}
     out = ex.run(f, st)
+    global LAST_PANICS
+    LAST_PANICS = list(ex.panics)
     return out.fields[2][1], out.fields[3][1], out.fields[5][1], sorted(ex.used)
+
+
+LAST_PANICS = []
 
 
 def _clamp_term(fns, consts, which, x_term):
@@ -186,6 +191,7 @@ def _job_set_phase(stage, fns, consts, log_path, only_range=False):
     out = []
     decls = "(declare-const p %s)\n(declare-const acc0 %s)\n(declare-const last0 %s)\n(declare-const flag0 Bool)\n" % (F32, BV32, BV32)
     acc, last, flag, used = _set_phase_term(fns, consts, "p")
+    panics = list(LAST_PANICS)
     finite = "(not (or (fp.isNaN p) (fp.isInfinite p)))"
     # --- translator validation against the real function --------------------------------
     body = "        for b in [%s] { let p = f32::from_bits(b); let mut pa = PhaseAccumulator::<24, 10>::new(1000.0); pa.tick(); pa.set_phase(p); std::println!(\"MIRVAL {} {} {} {}\", b, pa.accumulator, pa.last_accumulator, pa.rolled_over); }" % ", ".join("%du32" % _bits(v) for v in VALIDATION_PHASES)
@@ -217,8 +223,9 @@ def _job_set_phase(stage, fns, consts, log_path, only_range=False):
 
     f64 = "(_ FloatingPoint 11 53)"
     out.append(q("mir_set_phase_in_range", "C11/set_phase/phase-stays-below-one-cycle",
-                 "every finite f32 p: set_phase(p) leaves the counter < 2^24 (mask as set by new()), last = 0, no pending rollover flag",
-                 "(and (bvult %s #x01000000) (= %s #x00000000) (not %s))" % (acc, last, flag)))
+                 "every finite f32 p: set_phase(p) leaves the counter < 2^24 (mask as set by new()), last = 0, no pending rollover flag, and no compiler-inserted overflow check on its path can fail",
+                 "(and (bvult %s #x01000000) (= %s #x00000000) (not %s)%s)" % (
+                     acc, last, flag, "".join(" (not %s)" % pc for pc in panics))))
     if only_range:
         out[-1]["label"] = "C10/reachable-phases/set_phase-keeps-counter-below-2^24"
         return out
